@@ -268,6 +268,14 @@ def run(R):
                         probs.append('end of validity is not start_time + expire_sec seconds')
                     if ast.unparse(c_.args[4]) != 'start_time':
                         probs.append(f'validity start passed as {ast.unparse(c_.args[4])}')
+                    # ... and it is the caller's instant itself: every binding of the name that reaches the call (and the end computation) is the parameter
+                    for what, e_ in (('start', c_.args[4]), ('end', c_.args[5])):
+                        for nm in sorted({x.id for x in ast.walk(inline_ast(cx, e_)) if isinstance(x, ast.Name) and x.id == 'start_time'}):
+                            srcs = cx.sources(cx.node_of(c_), ast.Name(id=nm, ctx=ast.Load()))
+                            notp = [s_ for s_ in srcs if not (s_.kind == 'param' and s_.expr == 'start_time')]
+                            if notp:
+                                probs.append(f'the validity {what} is computed from {srcs_text(notp)}, not from the start_time argument as given: the requested '
+                                             'instant is converted on the way (a naive datetime is wall-clock UTC by the convention of new_cert / self_sign)')
             else:
                 end = calls[0].args[5]
                 cn = cx.node_of(calls[0])
